@@ -139,3 +139,54 @@ Fixpoint dnode_peqb (a b : dnode) : bool :=
   end.
 Definition dot_peqb (a b : dot) : bool :=
   N.eqb (d_bg a) (d_bg b) && dnode_peqb (d_top a) (d_top b) && perm_eqb estmt_eqb (d_edges a) (d_edges b).
+
+(* ---- renderer and configuration objects (seeded round 5) ----
+   DotRenderer.__init__: `self.config = config or RenderConfig()`; `config` is a public attribute holding a mutable
+   RenderConfig OBJECT.  Configuration objects live in a heap; a renderer holds the address of its configuration;
+   customising `renderers[r].config.<option>` writes into the heap cell that renderer points to. *)
+Inductive hop :=
+| HNew (c : option config)        (* DotRenderer(RenderConfig(..c..)) - a configuration made for it - / DotRenderer() *)
+| HSetQual (r : nat) (b : bool)   (* renderers[r].config.qualify_op_name = b *)
+| HSetPal (r : nat) (p : palette) (* renderers[r].config.palette = p *)
+| HDraw (r : nat).                (* renderers[r].render(hugr) *)
+Record hstate := { hs_heap : list config;      (* configuration objects by address *)
+                   hs_rend : list nat }.       (* renderer -> address of its configuration *)
+Fixpoint upd {A} (n : nat) (f : A -> A) (l : list A) : list A :=
+  match l, n with
+  | [], _ => []
+  | x :: r, O => f x :: r
+  | x :: r, S k => x :: upd k f r
+  end.
+Definition set_qual (b : bool) (c : config) : config := {| c_pal := c_pal c; c_qualify := b |}.
+Definition set_pal (p : palette) (c : config) : config := {| c_pal := p; c_qualify := c_qualify c |}.
+(* `RenderConfig()`: a NEW object holding the default options, at a fresh address *)
+Definition fresh_default (dflt : config) (s : hstate) : hstate * nat :=
+  ({| hs_heap := hs_heap s ++ [dflt]; hs_rend := hs_rend s |}, length (hs_heap s)).
+(* one step; `mk` is how a renderer made without a configuration gets one (the code: fresh_default) *)
+Definition hstep (mk : hstate -> hstate * nat) (t : htree) (ls : list link) (s : hstate) (o : hop)
+  : hstate * list dot :=
+  match o with
+  | HNew (Some c) => ({| hs_heap := hs_heap s ++ [c]; hs_rend := hs_rend s ++ [length (hs_heap s)] |}, [])
+  | HNew None => let (s', a) := mk s in ({| hs_heap := hs_heap s'; hs_rend := hs_rend s' ++ [a] |}, [])
+  | HSetQual r b => match nth_error (hs_rend s) r with
+                    | Some a => ({| hs_heap := upd a (set_qual b) (hs_heap s); hs_rend := hs_rend s |}, [])
+                    | None => (s, [])
+                    end
+  | HSetPal r p => match nth_error (hs_rend s) r with
+                   | Some a => ({| hs_heap := upd a (set_pal p) (hs_heap s); hs_rend := hs_rend s |}, [])
+                   | None => (s, [])
+                   end
+  | HDraw r => match nth_error (hs_rend s) r with
+               | Some a => match nth_error (hs_heap s) a with
+                           | Some c => (s, [render c t ls])
+                           | None => (s, [])
+                           end
+               | None => (s, [])
+               end
+  end.
+(* the drawings a history produces, in order *)
+Fixpoint hrun (mk : hstate -> hstate * nat) (t : htree) (ls : list link) (s : hstate) (h : list hop) : list dot :=
+  match h with
+  | [] => []
+  | o :: r => let (s', out) := hstep mk t ls s o in out ++ hrun mk t ls s' r
+  end.
